@@ -9,7 +9,7 @@ WITNESSES = [
     dict(id="c17-misaligned", prop="C17", file=G, expect="R17a",
          old="        if indices:  # we have a tensor\n            tensors.append(name)", new="        tensors.append(name)\n        if indices:  # we have a tensor"),
     dict(id="c17-target-string", prop="C17", file=G, expect="R17a",
-         old='    target = "".join(idx.name for idx in contraction.target)', new='    target = "".join(sorted(idx.name for idx in contraction.target))'),
+         old='        target = "".join(letters[idx.name] for idx in contraction.target)', new='        target = "".join(sorted(letters[idx.name] for idx in contraction.target))'),
     dict(id="c17-einsum-shortcut", prop="C17", file=G, expect="R17a",
          old="    if len(tensors) == 1 and indices[0] == target:", new="    if len(tensors) == 1 and len(indices[0]) == len(target):"),
     dict(id="c17-backend-fallthrough", prop="C17", file=G, expect="R17b",
@@ -37,7 +37,7 @@ WITNESSES = [
     dict(id="c17-factors-dropped", prop="C17", file=G, expect="R17a",
          old="    components = [*factors]\n    # special case: single tensor with the correct target indices", new="    components = []\n    # special case: single tensor with the correct target indices"),
     dict(id="c17-idx-string-sorted", prop="C17", file=G, expect="R17a",
-         old='            idx_str.append("".join(idx.name for idx in indices))', new='            idx_str.append("".join(sorted(idx.name for idx in indices)))'),
+         old='        idx_str = ["".join(letters[idx.name] for idx in indices)', new='        idx_str = ["".join(sorted(letters[idx.name] for idx in indices))'),
     dict(id="c17-cache-miss-silent", prop="C17", file=G, expect="R17a",
          old="            name = contraction_cache.get(name, None)\n            if name is None:", new="            name = contraction_cache.get(name, name)\n            if name is None:"),
     dict(id="c17-lt-contract-target", prop="C17", file=G, expect="R17a",
@@ -261,3 +261,112 @@ HELDOUT5 = [
                  'def format_contraction(contraction: Contraction,\n                       contraction_cache: dict[int, str],\n                       backend: str) -> str:\n    """\n    Builds a backend specific string for the given contraction.\n    """\n    # split the objects in tensors and factors\n    # and transform the indices of the tensors to string\n    tensors: list[str] = []\n    factors: list[str] = []\n    tensor_indices: list[tuple[Index]] = []\n    for name, indices in zip(contraction.names, contraction.indices):\n        # check the cache for the contraction string of the inner contraction\n        if Contraction.is_contraction(name):\n            name = contraction_cache.get(name, None)\n            if name is None:\n                raise KeyError("Could not find contraction string for inner "\n                               f"contraction {contraction}.")\n        # we have a tensor that we need to treat depening on the backend\n        elif backend == "einsum":  # translate eri and fock matrix\n            name = translate_adcc_names(name, indices)\n        elif backend == "libtensor":\n            # we can not form a partial trace in libtensor\n            contracted_obj_indices = [\n                idx for idx in indices if idx in contraction.contracted\n            ]\n            if any(n > 1 for _, n in Counter(contracted_obj_indices).items()):\n                raise NotImplementedError(\n                    "Libtensor can not handle a partial trace, i.e., a trace "\n                    f"with a tensor as result. Found {indices} on tensor "\n                    f"{name} of contraction\\n{contraction}"\n                )\n            # translate eri and t2eri\n            name = translate_libadc_names(name, indices)\n            name = f"{name}({\'|\'.join(idx.name for idx in indices)})"\n\n        if indices:  # we have a tensor\n            tensors.append(name)\n            tensor_indices.append(indices)\n        else:  # we have a factor without indices\n            factors.append(name)\n\n    if backend == "einsum":\n        return format_einsum_contraction(tensors=tensors, factors=factors,\n                                         indices=tensor_indices,\n                                         target=contraction.target)\n    elif backend == "libtensor":\n        return format_libtensor_contraction(tensors=tensors, factors=factors,\n                                            indices=tensor_indices,\n                                            target=contraction.target)\n    else:\n        raise NotImplementedError("Contraction not implemented for backend "\n                                  f"{backend}.")\n\n\ndef format_einsum_contraction(tensors: list[str], factors: list[str],\n                              indices: list[tuple[Index]],\n                              target: tuple[Index]) -> str:\n    """\n    Builds a contraction string for the given contraction using Python\n    numpy einsum syntax.\n    """\n    # transform the indices of the tensors and the target indices to string\n    indices = ["".join(idx.name for idx in idx_tpl) for idx_tpl in indices]\n    target = "".join(idx.name for idx in target)\n\n    components = [*factors]\n    # special case: single tensor with the correct target indices\n    # -> no einsum needed\n    if len(tensors) == 1 and indices[0] == target:\n        components.append(tensors[0])\n    elif tensors:  # we need a einsum: reorder or contraction or outer\n        contr_str = f"\\"{\',\'.join(indices)}->{target}\\""\n        components.append(\n            f"einsum({contr_str}, {\', \'.join(tensors)})"\n        )\n    return " * ".join(components)\n\n\ndef format_libtensor_contraction(tensors: list[str], factors: list[str],\n                                 indices: list[tuple[Index]],\n                                 target: tuple[Index]) -> str:\n    """\n    Builds a contraction string for the given contraction using libtensor\n    C++ syntax.\n    """\n    # every label that is not a label of the result is summed by \'contract\'\n    contracted = sorted(\n        {idx for idx in itertools.chain.from_iterable(indices)\n         if idx not in target},\n        key=sort_idx_canonical\n    )\n\n    components = [*factors]\n    if len(tensors) == 1:  # single tensor\n        assert not contracted  # trace\n        components.append(tensors[0])\n    elif len(tensors) > 1:  # multipe tensors\n        # hyper-contraction only implemented for 3 tensors i think\n        if contracted and target:  # contract\n            components.append(\n                f"contract({\'|\'.join(s.name for s in contracted)}, "\n                f"{\', \'.join(tensors)})"\n            )\n        elif not contracted and target:  # outer product\n            components.extend(tensors)\n        elif contracted and not target:  # inner product\n            components.append(f"dot_product({\', \'.join(tensors)})")\n        else:\n            raise NotImplementedError("No target and contracted indices in "\n                                      f"contraction of {tensors} and "\n                                      f"{factors}.")\n    return " * ".join(components)\n\n\n')]),
 ]
 WITNESSES += HELDOUT5
+
+# ---- held-out round 6: seed C17-13 (Obj.longname: block number of the ADC amplitude vectors) - the name table R17i
+E_ = "expr_container.py"
+_CLASS_OLD = ("                n_o, n_v = space.count(\"o\"), space.count(\"v\")\n"
+              "                if n_o == n_v:  # pp-ADC\n"
+              "                    n = n_o  # p-h -> 1 // 2p-2h -> 2 etc.\n"
+              "                else:  # ip-/ea-/dip-/dea-ADC\n"
+              "                    n = min([n_o, n_v]) + 1  # h -> 1 / 2h -> 1 / p-2h -> 2...\n")
+HELDOUT6 = [
+    # the seeded simplification: agrees for PP/IP/EA, not for DIP/DEA
+    dict(id="c17-seed13-mirror", prop="C17", file=E_, expect="R17i", old=_CLASS_OLD,
+         new="                n = max(space.count(\"o\"), space.count(\"v\"))\n"),
+    # other 'simplifications' of the block number
+    dict(id="c17-class-pp-off-by-one", prop="C17", file=E_, expect="R17i", old=_CLASS_OLD,
+         new="                n = min(space.count(\"o\"), space.count(\"v\")) + 1\n"),
+    dict(id="c17-class-by-lower-indices", prop="C17", file=E_, expect="R17i", old=_CLASS_OLD,
+         new="                n = max(len(base.lower), 1) if len(base.lower) != len(base.upper) + 2 else 1\n"),
+    dict(id="c17-left-right-swapped", prop="C17", file=E_, expect="R17i",
+         old="                lr = \"l\" if name == tensor_names.left_adc_amplitude else 'r'",
+         new="                lr = \"l\" if name == tensor_names.right_adc_amplitude else 'r'"),
+    dict(id="c17-left-default-literal", prop="C17", file=E_, expect="R17i",
+         old="                lr = \"l\" if name == tensor_names.left_adc_amplitude else 'r'",
+         new="                lr = \"l\" if name == \"X\" else 'r'"),
+    dict(id="c17-t-amplitude-rank-by-indices", prop="C17", file=E_, expect="R17i",
+         old="                if ext:\n                    name = f\"{base_name}{len(base.upper)}_{ext}\"",
+         new="                if ext:\n                    name = f\"{base_name}{len(self.idx)}_{ext}\""),
+    dict(id="c17-t-amplitude-order-dropped", prop="C17", file=E_, expect="R17i",
+         old="                if ext:\n                    name = f\"{base_name}{len(base.upper)}_{ext}\"",
+         new="                if ext:\n                    name = f\"{base_name}{len(base.upper)}\""),
+    dict(id="c17-t-amplitude-unequal-accepted", prop="C17", file=E_, expect="R17i",
+         old="                if len(base.upper) != len(base.lower):\n                    raise RuntimeError(\"Number of upper and lower indices not \"\n                                       f\"equal for t-amplitude {self}.\")\n",
+         new=""),
+    dict(id="c17-density-block-dropped", prop="C17", file=E_, expect="R17i",
+         old="                    name = f\"{base_name}0_{ext}_{self.space}\"", new="                    name = f\"{base_name}0_{ext}\""),
+    dict(id="c17-density-default-base", prop="C17", file=E_, expect="R17i",
+         old="                    base_name = tensor_names.defaults().get(\"gs_density\")", new="                    base_name = tensor_names.gs_density"),
+    dict(id="c17-t2eri-prefix-only", prop="C17", file=E_, expect="R17i",
+         old="            elif name.startswith('t2eri'):  # t2eri", new="            elif 't2eri' in name:  # t2eri"),
+    dict(id="c17-t2sq-prefix", prop="C17", file=E_, expect="R17i",
+         old="            elif name == 't2sq':", new="            elif name.startswith('t2sq'):"),
+    dict(id="c17-block-sorted", prop="C17", file=E_, expect=["R17i", "R17g"],
+         old="            else:  # arbitrary other tensor\n                name += f\"_{self.space}\"",
+         new="            else:  # arbitrary other tensor\n                name += f\"_{''.join(sorted(self.space))}\""),
+    # ---- behaviour-preserving twins
+    dict(id="c17-seed13-twin-bool-sum", prop="C17", file=E_, expect=None, old=_CLASS_OLD,
+         new="                n_o, n_v = space.count(\"o\"), space.count(\"v\")\n"
+             "                n = min(n_o, n_v) + (n_o != n_v)\n"),
+    dict(id="c17-seed13-twin-max-for-small-difference", prop="C17", file=E_, expect=None, old=_CLASS_OLD,
+         new="                n_o = sum(1 for sp in space if sp == \"o\")\n"
+             "                n_v = len(space) - n_o\n"
+             "                if abs(n_o - n_v) <= 1:  # pp-/ip-/ea-ADC\n"
+             "                    n = max(n_o, n_v)\n"
+             "                else:  # dip-/dea-ADC\n"
+             "                    n = sorted((n_o, n_v))[0] + 1\n"),
+    dict(id="c17-p-longname-lr-table", prop="C17", file=E_, expect=None,
+         old="                lr = \"l\" if name == tensor_names.left_adc_amplitude else 'r'\n                name = f\"u{lr}{n}\"",
+         new="                sides = {tensor_names.right_adc_amplitude: \"r\",\n                         tensor_names.left_adc_amplitude: \"l\"}\n                name = \"u\" + sides[name] + str(n)"),
+    dict(id="c17-p-longname-t-amplitude-suffix", prop="C17", file=E_, expect=None,
+         old="                if ext:\n                    name = f\"{base_name}{len(base.upper)}_{ext}\"\n                else:  # name for t-amplitudes without a order\n                    name = f\"{base_name}{len(base.upper)}\"",
+         new="                rank = len(base.lower)  # == len(base.upper)\n                name = base_name + str(rank) + (\"_\" + ext if ext else \"\")"),
+    dict(id="c17-p-longname-density-parts", prop="C17", file=E_, expect=None,
+         old="                if ext:\n                    name = f\"{base_name}0_{ext}_{self.space}\"\n                else:  # name for gs-dentity without a order\n                    name = f\"{base_name}0_{self.space}\"",
+         new="                parts = [f\"{base_name}0\", ext, self.space]\n                name = \"_\".join(part for part in parts[:2] if part)\n                name = name + \"_\" + parts[2]"),
+    dict(id="c17-p-longname-early-returns", prop="C17", file=E_, expect=None,
+         edits=[("            elif name.startswith('t2eri'):  # t2eri\n                name = f\"t2eri_{name[5:]}\"\n            elif name == 't2sq':\n                pass\n            else:  # arbitrary other tensor\n                name += f\"_{self.space}\"\n        elif isinstance(base, KroneckerDelta):  # deltas -> d_oo / d_vv\n            name = f\"d_{self.space}\"\n        return name",
+                 "            elif name[:5] == 't2eri':  # t2eri\n                return \"t2eri_\" + name[len('t2eri'):]\n            elif name != 't2sq':  # arbitrary other tensor\n                return \"_\".join((name, self.space))\n            return name\n        if isinstance(base, KroneckerDelta):  # deltas -> d_oo / d_vv\n            return \"d_%s\" % self.space\n        return None")]),
+]
+WITNESSES += HELDOUT6
+
+# ---- F55 (tensors without indices are operands, not part of the prefactor) and F54 (einsum subscripts)
+_F55_NEW = ("            if not term.idx and not any(isinstance(o.base, SymbolicTensor)\n"
+            "                                        for o in term.objects):\n")
+ROUND6_DEFECTS = [
+    dict(id="c17-F55-revert", prop="C17", file=G, expect="R17e", old=_F55_NEW,
+         new="            if not term.idx:  # term is just a prefactor\n"),
+    dict(id="c17-F55-twin", prop="C17", file=G, expect=None, old=_F55_NEW,
+         new="            scalar_tensors = [o for o in term.objects\n"
+             "                              if isinstance(o.base, SymbolicTensor)]\n"
+             "            if len(term.idx) == 0 and len(scalar_tensors) == 0:\n"),
+]
+WITNESSES += ROUND6_DEFECTS
+_F54_NEW = ("        letters = einsum_subscripts(contraction)\n"
+            "        idx_str = [\"\".join(letters[idx.name] for idx in indices)\n"
+            "                   for indices in contraction.indices if indices]\n"
+            "        target = \"\".join(letters[idx.name] for idx in contraction.target)\n")
+ROUND6_F54 = [
+    # the subscripts are the concatenated full names again
+    dict(id="c17-F54-revert", prop="C17", file=G, expect="R17a", old=_F54_NEW, new=""),
+    # every numbered name gets the letter of its name: not injective (i1, i2 -> i)
+    dict(id="c17-F54-first-letter", prop="C17", file=G, expect="R17a",
+         old="        letter = next((c for c in candidates if c not in used), None)", new="        letter = name[0]"),
+    # the letters of the single-letter names are not reserved
+    dict(id="c17-F54-used-not-reserved", prop="C17", file=G, expect="R17a",
+         old="    used = set(letters.values())\n    for name, space in names.items():", new="    used = set()\n    for name, space in names.items():"),
+    # the target indices get their own map
+    dict(id="c17-F54-target-unmapped", prop="C17", file=G, expect="R17a",
+         old="        target = \"\".join(letters[idx.name] for idx in contraction.target)\n", new=""),
+    # twin: the letter pool as one string, explicit loop instead of next(); sorted first-come assignment is kept
+    dict(id="c17-F54-twin", prop="C17", file=G, expect=None,
+         edits=[("        candidates = itertools.chain(name[0], Indices.base[space],\n                                     ascii_letters)\n        letter = next((c for c in candidates if c not in used), None)\n",
+                 "        pool = name[:1] + \"\".join(Indices.base[space]) + ascii_letters\n        letter = None\n        for candidate in pool:\n            if candidate not in used:\n                letter = candidate\n                break\n"),
+                ("        letters = einsum_subscripts(contraction)\n        idx_str = [\"\".join(letters[idx.name] for idx in indices)\n                   for indices in contraction.indices if indices]\n",
+                 "        letters = einsum_subscripts(contraction)\n        idx_str = []\n        for indices in contraction.indices:\n            if len(indices) > 0:\n                idx_str.append(\"\".join([letters[idx.name] for idx in indices]))\n")]),
+    # twin: a different but injective choice of letters (from the end of the alphabet)
+    dict(id="c17-F54-twin-other-letters", prop="C17", file=G, expect=None,
+         old="        candidates = itertools.chain(name[0], Indices.base[space],\n                                     ascii_letters)",
+         new="        candidates = reversed(ascii_letters)"),
+]
+WITNESSES += ROUND6_F54
